@@ -86,7 +86,12 @@ class RuleGen:
         pos = bool(l.args and (not l.kwargs or self.r.random() < 0.6))
         i = self.r.randrange(len(l.args)) if pos else self.r.choice(list(l.kwargs))
         lit = l.args[i] if pos else l.kwargs[i]
-        if self.r.random() < 0.6 and self.plantable(lit):
+        ranged = l.method in ("in_range", "not_in_range")
+        if ranged and (not self.plantable(lit) or not isinstance(doc, dict)):
+            return cond      # (in a list document the planted position could exist, with any value, in the other documents a check uses)
+        # (a range bound is always the planted, small literal: `x in range(lo, hi)` scans the whole range for a non-integer x, so a
+        # bound picked up anywhere in a document, such as -(2**63 - 1), would make the implementation run for hours)
+        if (ranged or self.r.random() < 0.6) and self.plantable(lit):
             # plant the literal in the document and point the path at it: the argument then resolves to the value the
             # leaf generator chose (related to the selected data), so that true verdicts are as frequent as for literals
             if isinstance(doc, dict):
